@@ -69,9 +69,9 @@ SC = "Go toolchain; tools/instr rewriter (every channel/select/go/sync/time oper
 add("C07", "model_checking", "stateless deviation-bounded DFS over thread interleavings of the real SyncWAL loop and writers under a controlled scheduler",
     "real SyncWAL goroutine + 2 (and 3) writers + WAL timer; ALL schedules with <=2 deviations (thorough: 3 for 2 writers) from the default run-until-block schedule; at the step a request returns the durable WAL view (content as of its last fsync, rebuilt from the device log) must hold a committed checksum-valid transaction with the writer's row and a query must see it",
     SC, "schedmc")
-add("C18", "model_checking", "stateless deviation-bounded DFS over interleavings of writers and readers on the real server (device operations are scheduling points)",
-    "four thread sets (two writers into one variable interval + reader; two writers on one fixed interval + reader; writer + two readers; writer adding a year file + reader) with the real SyncWAL loop and WAL timer; ALL schedules with <=2 deviations (thorough 3); every query result must be error-free, torn-free (two tag columns equal), from issued writes, without duplicates. Data races in the memory-model sense are not decided by this check (stated in the evidence).",
-    SC, "schedmc")
+add("C18", "model_checking", "stateless deviation-bounded DFS over interleavings of writers and readers on the real server (device operations are scheduling points) with vector-clock happens-before race detection on every explored schedule",
+    "four thread sets (two writers into one variable interval + reader; two writers on one fixed interval + reader; writer + two readers; writer adding a year file + reader) with the real SyncWAL loop and WAL timer; ALL schedules with <=2 deviations (thorough 3); every query result must be error-free, torn-free (two tag columns equal), from issued writes, without duplicates. Data races: reads/writes of struct fields and package-level variables of the instrumented packages are tracked against the happens-before order induced by the code's own synchronisation only (mutexes, RW-mutexes, wait groups, once, channels, go); two conflicting unordered accesses in any explored schedule are a violation, and accesses found racy in the discovery pass become scheduling points.",
+    SC + "; race detection covers field and package-variable accesses of the instrumented packages (not slice/map elements, not code of third-party packages)", "schedmc")
 add("C35", "model_checking", "stateless deviation-bounded DFS over interleavings of writers, timers and the graceful Shutdown, followed by a real restart on the captured image",
     "real SyncWAL loop + fixed writer + variable writer + Shutdown thread (+ checkpoint timer with rotation); ALL schedules with <=2 deviations (thorough 3); when Shutdown returns the query results and the device image are captured atomically, the image is restarted through the real startup path and the results compared",
     SC + "; the process exits when Shutdown returns", "schedmc")
